@@ -1,6 +1,7 @@
 import Cirbo.Proofs.Traverse
 import Cirbo.Proofs.Dfs
 import Cirbo.Proofs.TrTerm
+import Cirbo.Proofs.DfsOrder
 /-!
 # C20 — Traversals visit exactly the reachable gates in a valid order
 
@@ -8,9 +9,12 @@ import Cirbo.Proofs.TrTerm
 -- OBLIGATION: c20_top_sort_outputs_first
 -- OBLIGATION: c20_traverse_reach_exact
 -- OBLIGATION: c20_dfs_exits_exact
+-- OBLIGATION: c20_dfs_exits_post_order
+-- OBLIGATION: c20_dfs_inverse_exits_post_order
+-- OBLIGATION: c20_dfs_enter_before_exit
 -- OBLIGATION: c20_traversal_terminates
 -- OBLIGATION: c20_traverse_never_raises
--- PARTIAL: DFS hook order (enter before exit, post-order exits; balance — every entered gate is exited exactly once — is proved) and exactness of the cycle check are modelled (Model/Traverse.lean, hasCycleCheck) and compared with the code event by event on every run; their theorems are not proved yet.
+-- PARTIAL: exactness of the cycle check is modelled (Model/Traverse.lean, hasCycleCheck) and compared with the code on every run, deliberately cyclic netlists included; its theorem is not proved yet.
 -/
 namespace Cirbo
 
@@ -78,6 +82,29 @@ theorem c20_dfs_exits_exact {c : Circuit} (inverse : Bool) (start : Option (List
     (exits log).Nodup ∧ (∀ l, l ∈ exits log ↔ Reach next q0 l) ∧ (∀ l, l ∈ exits log ↔ l ∈ yields log) :=
   dfs_exits_exact inverse start tsu ab hne h
 
+/-- Exit hooks fire in post-order: in a depth-first traversal from the outputs (or any start list)
+of a circuit with distinct labels and no cycle, every gate exits after all of its operands. -/
+theorem c20_dfs_exits_post_order {c : Circuit} (hnd : c.labels.Nodup)
+    (hrank : ∃ r : Label → Nat, ∀ g ∈ c.gates, ∀ o ∈ g.ops, r o < r g.label)
+    (start : Option (List Label)) (tsu ab : Bool) {log : List Ev}
+    (h : traverse c false false start tsu ab = .ok log) :
+    ∀ e1 l e2, exits log = e1 ++ l :: e2 → ∀ x ∈ c.opsOf l, x ∈ e1 :=
+  dfs_operands_first hnd hrank start tsu ab h
+
+/-- The same for `inverse=True`: every gate exits after all of its users. -/
+theorem c20_dfs_inverse_exits_post_order {c : Circuit} (hw : WFU c)
+    (start : Option (List Label)) (tsu ab : Bool) {log : List Ev}
+    (h : traverse c false true start tsu ab = .ok log) :
+    ∀ e1 l e2, exits log = e1 ++ l :: e2 → ∀ x ∈ c.usersOf l, x ∈ e1 :=
+  dfs_users_first hw start tsu ab h
+
+/-- Enter hooks precede exit hooks: in the hook log of any depth-first traversal (any circuit, any
+start, either direction) each exit of a gate comes after its enter. -/
+theorem c20_dfs_enter_before_exit {c : Circuit} (inverse : Bool) (start : Option (List Label)) (tsu ab : Bool)
+    {log : List Ev} (h : traverse c false inverse start tsu ab = .ok log) :
+    ∀ pre l post, log = pre ++ Ev.exit l :: post → Ev.enter l ∈ pre :=
+  dfs_enter_before_exit inverse start tsu ab h
+
 /-- The traversal loop terminates: on any circuit with distinct labels (cyclic or not, dangling
 operands or not), any start list, direction and hook set, the loop's step budget — which the proof
 shows is a strict upper bound on `queue length + Σ_{unvisited}(1 + successors)` — is never exhausted. -/
@@ -94,6 +121,9 @@ theorem c20_traverse_never_raises {c : Circuit} (h : WFU c) (bfs inverse : Bool)
     ∃ log, traverse c bfs inverse start tsu false = .ok log :=
   traverse_ok h bfs inverse start hstart tsu
 
+#print axioms c20_dfs_exits_post_order
+#print axioms c20_dfs_inverse_exits_post_order
+#print axioms c20_dfs_enter_before_exit
 #print axioms c20_traversal_terminates
 #print axioms c20_traverse_never_raises
 #print axioms c20_top_sort_inputs_first
